@@ -84,7 +84,9 @@ top:
 	defer aux.moo.Unlock()
 	if gmeth := aux.methods[string(key)]; gmeth != nil && 0 < len(gmeth.Combinations) {
 		comb := meth.Combinations[0]
-		gcomb := gmeth.Combinations[0]
+		// Effective methods already handed to calls in progress share the
+		// combination so change a copy instead of the combination itself.
+		gcomb := *gmeth.Combinations[0]
 		// Just one of the daemon callers of meth should be set.
 		if comb.Primary != nil {
 			gcomb.Primary = nil
@@ -99,12 +101,11 @@ top:
 			gcomb.Wrap = nil
 		}
 		// If no more daemons in the generic method combination then remove
-		// the combination.
-		if gcomb.Primary == nil && gcomb.Before == nil && gcomb.After == nil && gcomb.Wrap == nil {
-			gmeth.Combinations = gmeth.Combinations[:len(gmeth.Combinations)-1]
-			if len(gmeth.Combinations) == 0 {
-				delete(aux.methods, string(key))
-			}
+		// the method.
+		if gcomb.Empty() {
+			delete(aux.methods, string(key))
+		} else {
+			gmeth.Combinations = []*slip.Combination{&gcomb}
 		}
 		if 0 < len(aux.cache) { // clear cache
 			aux.cache = map[string]*slip.Method{}
